@@ -279,7 +279,10 @@ class Executor(ExprMixin, StmtMixin, LoopMixin):
             for k in mro:
                 if name in k.__dict__:
                     raw = k.__dict__[name]
-                    kind = "static" if isinstance(raw, staticmethod) else "class" if isinstance(raw, classmethod) else "property" if isinstance(raw, property) else "instance"
+                    import functools as _ft
+
+                    kind = ("static" if isinstance(raw, staticmethod) else "class" if isinstance(raw, classmethod)
+                            else "property" if isinstance(raw, property) else "cached_property" if isinstance(raw, _ft.cached_property) else "instance")
                     if after is not None and f"{k.__qualname__}.{name}" in cs.methods:
                         return cs.methods[f"{k.__qualname__}.{name}"], "model"
                     key = f"{k.__module__}:{k.__qualname__}.{name}"
@@ -372,8 +375,17 @@ class Executor(ExprMixin, StmtMixin, LoopMixin):
                 if z3.eq(lift(lk[0]), lift(recv)):
                     st.env[k_[1]] = self.read_field(st, lk[0], name)
                     del st.ghost[k_]
+                elif not v.is_py and name in cs.fields and z3.eq(lift(v, cs.fields[name]), lift(self.read_field(st, lk[0], name))):
+                    # `a.f = x; b.f = x`: the container the local aliases is stored into a second object's field as well -- the
+                    # local's link is unaffected (if b is a, the same value is stored again).  The two fields now SHARE one
+                    # container, which has no model: a later in-place change through either field is refused (below).
+                    st.ghost[("shared", cs.name, name)] = getattr(node, "lineno", None)
+                elif self.entails(st, lift(lk[0]) != lift(recv)):
+                    pass  # a different object: what the local aliases is untouched
                 else:
                     raise Unsupported(f"field {cs.name}.{name} is re-bound through another reference while the local '{k_[1]}' aliases its container", node)
+        if mutate and ("shared", cs.name, name) in st.ghost:
+            raise Unsupported(f"in-place change of {cs.name}.{name}: one container was stored into two objects' fields (line {st.ghost[('shared', cs.name, name)]}); sharing between fields is not modelled", node)
         if v.ty is PYOBJ and name not in cs.fields:
             # python-level value (closure, class, heterogeneous constant): kept outside the SMT heap, which is
             # only possible when the receiver is a definite object (a constant, not an ite/select term)
